@@ -828,7 +828,7 @@ mod if_alloc {
         /// Verification hook: keeps the shared state alive and observable
         /// without being a sender or receiver handle.
         #[cfg(futures_intrusive_verif)]
-        pub struct VerifPeek<MutexType, T>
+        pub struct StateVerifPeek<MutexType, T>
         where
             MutexType: RawMutex,
             T: Clone + 'static,
@@ -837,7 +837,7 @@ mod if_alloc {
         }
 
         #[cfg(futures_intrusive_verif)]
-        impl<MutexType, T> VerifPeek<MutexType, T>
+        impl<MutexType, T> StateVerifPeek<MutexType, T>
         where
             MutexType: RawMutex,
             T: Clone + 'static,
@@ -864,8 +864,8 @@ mod if_alloc {
             T: Clone + 'static,
         {
             /// Verification hook: an uncounted reference to the shared state
-            pub fn verif_peek(&self) -> VerifPeek<MutexType, T> {
-                VerifPeek {
+            pub fn verif_peek(&self) -> StateVerifPeek<MutexType, T> {
+                StateVerifPeek {
                     inner: self.inner.clone(),
                 }
             }
